@@ -39,21 +39,51 @@ def run(tier, scratch, drv, only_cases=None):
                     for m in MOMENTS:
                         cases.append({"n": len(cases) + 1, "cfg": {"transport": tr, "fault": f, "moment": m,
                                                                    "seed": vlib.seed() * 10 + rep}})
-        for st in ("finishing", "finished", "new", "negotiating", "authenticating"):
+        cases.append({"n": len(cases) + 1, "cfg": {"transport": "tcp", "fault": "none", "moment": "ping", "seed": vlib.seed()}})
+        for st in ("finishing", "finished", "failed", "new", "negotiating", "authenticating"):
             cases.append({"n": len(cases) + 1, "cfg": {"transport": "tcp", "fault": st, "moment": "handshake",
                                                        "seed": vlib.seed()}})
     else:
         cases = only_cases
         res["model"] = {}
+    iso = [c for c in cases if c["cfg"]["moment"] == "handshake"]
     cp = os.path.join(scratch, "cli_cases_%d.ndjson" % len(cases))
     with open(cp, "w") as f:
         for c in cases:
-            f.write(json.dumps(c) + "\n")
+            if c not in iso:
+                f.write(json.dumps(c) + "\n")
     trace = cp.replace("cases", "trace")
     rp = cp.replace("cases", "res")
     _, wall = vlib.run_driver(drv, ["cli", "-cases", cp, "-trace", trace, "-results", rp, "-workers", "24"])
     with open(rp) as f:
         summary = json.load(f)
+    # handshake cases run one process each: a panic in a goroutine of the library would end the whole batch
+    for c in iso:
+        one = os.path.join(scratch, "cli_one_%d" % c["n"])
+        with open(one + ".cases", "w") as f:
+            f.write(json.dumps(c) + "\n")
+        import subprocess
+        try:
+            p = subprocess.run([drv, "cli", "-cases", one + ".cases", "-trace", one + ".trace", "-results", one + ".res",
+                                "-workers", "1"], capture_output=True, text=True, timeout=120)
+            rc, err = p.returncode, p.stderr
+        except subprocess.TimeoutExpired:
+            rc, err = -1, "timeout"
+        if rc == 0:
+            with open(one + ".trace") as f:
+                lines = f.read()
+            with open(one + ".res") as f:
+                summary["results"] += json.load(f)["results"]
+        else:
+            why = "panic" if "panic:" in err else "died"
+            first = [l for l in err.splitlines() if l.startswith("panic:")][:1]
+            ev = {"k": "panic", "n": 0, "tag": "", "res": (first[0] if first else why)[:200]}
+            cj = lambda o: json.dumps(o, separators=(",", ":"))   # as the Go writer does (case boundaries are found textually)
+            lines = cj({"k": "cfg", "n": c["n"]}) + "\n" + cj(ev) + "\n" + cj({"k": "end", "n": 0, "tag": "", "res": "crashed"}) + "\n"
+            summary["results"].append({"n": c["n"], "cfg": c["cfg"], "actual": [ev]})
+        with open(trace, "a") as f:
+            f.write(lines)
+        summary["cases"] += 1
     if summary["notes"] > len(cases) // 3:
         raise vlib.Inconclusive("%d of %d cases could not be set up" % (summary["notes"], len(cases)))
     res["replay"] = {"cases": summary["cases"], "matched": summary["cases"] - summary["notes"], "wall_s": wall,
